@@ -233,15 +233,18 @@ def run_steps(case):
                     return {"labels": labels, "nontrivial": True, "violation": {"kind": "history-verdict", "detail": "probe move returning False recorded with a verdict"}}
         # weights re-tuned while the step's generator is being consumed ("dynamic change of the probabilities between
         # moves"): a due entry parked at weight 0 gets all the weight after the first slot -> every later free slot is it
-        if case["cycles"] >= 3 and len(case["table"]) >= 2 and all(t[2] == 0 for t in case["table"]):
-            mc3 = make_mc(dict(case, table=[[1, 1.0, 0], [1, 0.0, 0]] + [[1, 0.0, 0] for _ in case["table"][2:]]))
-            mc3.step_count = 0
-            n0, n1 = name_of(case, 0), name_of(case, 1)
+        if case["cycles"] >= 3:
             seen = []
-            for k, nm in enumerate(mc3.yield_moves()):
-                seen.append(str(nm))
-                if k == 0:
-                    mc3.moves[n0].probability, mc3.moves[n1].probability = 0.0, 1.0 * float(case.get("wscale", 1.0))
+            n0, n1 = name_of(case, 0), name_of(case, 1)
+            try:
+                mc3 = make_mc(dict(case, table=[[1, 1.0, 0], [1, 0.0, 0], [2, 0.0, 0]]))
+                mc3.step_count = 0
+                for k, nm in enumerate(mc3.yield_moves()):
+                    seen.append(str(nm))
+                    if k == 0:
+                        mc3.moves[n0].probability, mc3.moves[n1].probability = 0.0, 1.0 * float(case.get("wscale", 1.0))
+            except Exception as exc:
+                return {"labels": labels, "nontrivial": True, "key": key, "violation": {"kind": "in-step-reweight:raises", "detail": f"cycles={case['cycles']}: after {seen} the weights were swapped between two moves (all weight to the entry parked at 0): {type(exc).__name__}: {exc}"}}
             labels.append("weights-swapped-inside-a-step")
             if seen[:1] != [n0] or any(x != n1 for x in seen[1:]) or len(seen) != case["cycles"]:
                 return {"labels": labels, "nontrivial": True, "key": key, "violation": {"kind": "in-step-reweight", "detail": f"cycles={case['cycles']}: entry {n0!r} had all the weight for the first slot, then {n1!r} (parked at 0) got it all: scheduled {seen}"}}
